@@ -110,3 +110,18 @@ e1prop("C01", "Group laws (by decomposition: kernels, formulas, algorithms)", "C
        "kernel layer: every Ed25519 field kernel of fe.go (feMul, feSquare, feSquare2, feAdd, feSub, feNeg, feCopy, feZero, feOne, feCMove, feToBytes, feFromBytes) is a ring operation on the represented value mod 2^255-19 for ALL limb vectors within the input bounds documented in the source, with every int32/int64 operation free of overflow and the documented output limb bounds (503 overflow obligations for feMul alone).",
        ["kernel layer: all inputs within the documented limb bounds; no loops", "formula and algorithm layers: see the per-harness bounds in the evidence"],
        ["P-256 (Go's nistec), BLS12-381 back-ends (kilic, circl, gnark), the residue group's modexp, bn gfp assembly, GT/gfp12 towers: external code or assembly, not encodable; only their Go adapter glue is examined (C05)", "the textbook theorem that the affine (twisted-)Edwards / Weierstrass addition laws form an abelian group (trusted, DESIGN.md 6/C01)"])
+
+
+def add_e1_part(pid, spec, extra_text, extra_bounds=None, extra_outside=None):
+    P = PROPS[pid]
+    P["parts"].append(dict(engine="e1", name=pid.lower() + "-e1", spec=spec))
+    P["technique"] += "; plus symbolic execution (E1 ssaexec, go/ssa -> SMT-LIB2 bit-vectors/integers) of the byte- and bit-level kernels"
+    P["level_text"] += " E1 part: " + extra_text
+    P["bounds"] = P.get("bounds", []) + (extra_bounds or [])
+    P["outside_claim"] = P.get("outside_claim", []) + (extra_outside or [])
+    P["assumptions"] = P.get("assumptions", []) + [E1NOTE]
+
+add_e1_part("C08", "C08.json",
+            "scalar.IsCanonical(sb) <=> LE(sb) < l, point.IsCanonical(s) <=> LE(s with bit 255 cleared) < p and HasSmallOrder() <=> the encoding is one of the five listed small-order encodings, each for ALL 2^256 byte strings (bit-vector queries), plus the length guards.",
+            ["E1: all 2^256 32-byte inputs; lengths 0, 31, 33 for the guards"],
+            ["HasSmallOrder is checked over all byte strings through a stub of MarshalBinary; a counterexample that is not the encoding of a curve point is a candidate only (reported INCONCLUSIVE)"])
